@@ -190,18 +190,28 @@ func runScenario(w *vt.Writer, s scenario, rp *randomPlan) int {
 	rec.helper = true
 	pt0, ad0 := vt.Bytes(rng, []int{0, 1, 15, 32, 47}[rng.Intn(5)]), vt.Bytes(rng, []int{0, 3, 20}[rng.Intn(3)])
 	grab := &grabRemote{r: rem}
-	ct0, err := aead.NewKMSEnvelopeAEAD2(spec.Tmpl(), grab).Encrypt(append([]byte{}, pt0...), append([]byte{}, ad0...))
-	if err != nil {
-		vt.Fatal("helper envelope: %v", err)
+	var ct0 []byte
+	if p, pv := vt.Try(func() {
+		ct0, err = aead.NewKMSEnvelopeAEAD2(spec.Tmpl(), grab).Encrypt(append([]byte{}, pt0...), append([]byte{}, ad0...))
+	}); p {
+		err = fmt.Errorf("panic: %v", pv)
 	}
 	rec.helper = false
+	preerr := ""
+	if err != nil { // Encrypt over an honest remote failed: judged by the trace spec (D5), the scenario ends here
+		preerr = "Encrypt failed: " + err.Error()
+	}
 	store := []envelope{{ct0, pt0, ad0}}
 	tmpl := templateFor(s, spec)
 	w.Emit(vt.Ev{"ev": "reset", "id": s.ID, "variant": s.C.Variant, "tmpl": s.C.Tmpl, "client": s.C.Client, "dek": spec.Name, "kt": spec.KT,
 		"dk":   map[string]any{"key": spec.Key, "mkey": spec.MKey, "iv": spec.IV, "tag": spec.Tag, "hash": spec.Hash},
-		"turl": tmpl.GetTypeUrl(),
-		"pre":  map[string]any{"ct": vt.Hex(ct0), "pt": vt.Hex(pt0), "ad": vt.Hex(ad0), "dek": vt.Hex(grab.dek), "encdek": vt.Hex(grab.encdek)}})
+		"turl": tmpl.GetTypeUrl(), "preerr": preerr,
+		"pre": map[string]any{"ct": vt.Hex(ct0), "pt": vt.Hex(pt0), "ad": vt.Hex(ad0), "dek": vt.Hex(grab.dek), "encdek": vt.Hex(grab.encdek)}})
 
+	if preerr != "" {
+		w.Emit(vt.Ev{"ev": "end", "stray": 0})
+		return 0
+	}
 	// ---------------------------------------------------------------- construction
 	var tg target
 	obj, step, newErr := "ok", "", ""
